@@ -29,7 +29,8 @@ From HV Require Import lib.Harness model.Validity model.Builder spec.BuilderS pr
   spec.BuilderWFS proofs.BuilderFrameP proofs.BuilderRulesP proofs.BuilderTypeP
   proofs.BuilderAcyclicP proofs.BuilderNonLocalP proofs.BuilderInputsP proofs.BuilderLinearP proofs.BuilderCopyP
   model.Builder2 proofs.Builder2EmbP spec.Builder2WFS proofs.Builder2P proofs.Builder2FrameP proofs.Builder2RulesP proofs.Builder2TypeP proofs.Builder2NonLocalP
-  spec.Builder2LiveS proofs.Builder2AcyclicP proofs.Builder2LinearP proofs.Builder2ValidP.
+  spec.Builder2LiveS proofs.Builder2AcyclicP proofs.Builder2LinearP proofs.Builder2ValidP
+  model.Builder3 proofs.Builder3EmbP.
 
 (* Proved for ALL programs of the modelled language, with no well-formedness premise: whenever the
    builder calls do not raise, the serialised document satisfies
@@ -397,3 +398,36 @@ Theorem C01_builder2_wf_examples :
      existsb (fun n => existsb (fun t => negb (ty_copy ex7_tys t)) (val_out (n_op n))) (g_nodes g) = true).
 Proof. exact (conj ex4_wf (conj ex5_wf ex7_linear)). Qed.
 Print Assumptions C01_builder2_wf_examples.
+
+(* ==================================================================== fourth pass: the third builder model
+   model/Builder3.v keeps every construct of Builder2 and adds Function / Module roots (declare_function,
+   define_function, define_main, module constants), call and load_function (monomorphic, and polymorphic with an explicit
+   instantiation), functions defined inside dataflow regions, function-valued constants, and control-flow graphs: Cfg
+   roots, add_cfg / insert_cfg, add_entry / add_block / add_successor, set_block_outputs / set_single_succ_outputs,
+   branch / branch_exit, and the Dom wires of Block._wire_up_port.  `run3` is its interpreter; it is tied to hugr-py by the
+   correspondence `run3s program == the document (and the nested documents of its function constants)` on every
+   generated program of every root (run/C01Run.v: CProg3). *)
+
+(* the third model is conservative over the second: the embedding of a program of the extended language runs to the same
+   result (the same document or the same error), for every program, type table and signature table *)
+Theorem C01_builder3_conservative : forall tys sigs p, run3 tys sigs (emb2 p) = run2 tys p.
+Proof. exact run3_emb2. Qed.
+Print Assumptions C01_builder3_conservative.
+
+(* so every theorem about run2 transfers to run3 on embedded programs; the full validity theorem restated *)
+Theorem C01_builder3_valid_embedded : forall tys sigs p g,
+  r_table tys = true -> wf_prog2 tys p = true -> run3 tys sigs (emb2 p) = Ok g ->
+  valid {| v_tys := tys; v_main := g; v_subs := [] |} = true.
+Proof. exact run3_emb2_valid. Qed.
+Print Assumptions C01_builder3_valid_embedded.
+
+(* non-vacuity for the third language: a module with a declared and a defined function; the body calls and loads the
+   declared function and runs a CFG whose second block uses a value of the entry block through a Dom wire; the whole
+   `valid` accepts the document (21 nodes), which has a good non-local value edge *)
+Theorem C01_builder3_example : exists g, run3 ex9_tys ex9_sigs ex9_prog = Ok g /\
+  valid {| v_tys := ex9_tys; v_main := g; v_subs := [] |} = true /\ length (g_nodes g) = 21%nat /\
+  existsb (fun n => match n_op n with CFG _ _ => true | _ => false end) (g_nodes g) = true /\
+  existsb (fun n => match n_op n with Call _ _ _ => true | _ => false end) (g_nodes g) = true /\
+  existsb (fun r => ecode_eqb (classify ex9_tys g (redges g) r) EOk && negb (is_static (r_kind r))) (redges g) = true.
+Proof. exact ex9_runs. Qed.
+Print Assumptions C01_builder3_example.
